@@ -58,6 +58,19 @@ func RespLocOf(r *spec.HTTPResponse, attr string) valgen.Loc {
 	return valgen.Body
 }
 
+// RespCarried reports whether the response carries the result attribute at all: with an explicit body (Body(Empty),
+// Body("attr")) only the attributes mapped to headers or cookies, the body attribute and the tag attribute (which the
+// client restores from the selected response) travel; the others are dropped by design.
+func RespCarried(r *spec.HTTPResponse, attr string) bool {
+	if r == nil || r.Body == "" || r.Body == "custom" {
+		return true
+	}
+	if RespLocOf(r, attr) != valgen.Body || attr == r.TagAttr {
+		return true
+	}
+	return r.Body == "attr:"+attr
+}
+
 var credPool = []string{"tok123", "abc.def.ghi", "x-y_z", "with space", "Bearer already", "ünï-tok", "a:b"}
 
 // CredPool is the credential alphabet (the first three are blank-free ASCII tokens).
